@@ -117,6 +117,28 @@ class Html:
         return self.s
 
 
+class Catalog:
+    """A message catalogue whose translations contain no HTML-special characters but were written carelessly: stray percent signs,
+    unsupported format characters, placeholders used twice.  Whatever the tag makes of them, message *variables* stay escaped."""
+
+    VARIANTS = [lambda m: m, lambda m: "100% " + m, lambda m: m + " 5 %", lambda m: m + " / " + m, lambda m: "%d " + m, lambda m: m.replace(")s", ")d")]
+
+    def __init__(self, variant: int):
+        self.f = self.VARIANTS[variant % len(self.VARIANTS)]
+
+    def gettext(self, message):
+        return self.f(message)
+
+    def ngettext(self, singular, plural, n):
+        return self.f(singular if n == 1 else plural)
+
+    def pgettext(self, message_context, message):
+        return self.f(message)
+
+    def npgettext(self, message_context, singular, plural, n):
+        return self.f(singular if n == 1 else plural)
+
+
 def has_special(v: Any) -> bool:
     if isinstance(v, str):
         return any(c in v for c in "<>&'\"%") or "Jm" in v or "PGI" in v
@@ -135,7 +157,7 @@ def judge(ctx: core.Ctx, case: dict[str, Any]) -> None:
         d = dict(data)
         d["m"] = Markup(marked) if case.get("as") == "markup" else Html(marked)
         o = drv.parse_and_render(env(True), src, d)
-        exp = src.replace("{{ m }}", marked).replace("{{m}}", marked)
+        exp = "[" + marked + "]"  # every passthrough route prints the marked value exactly once between the brackets
         if not o.ok or o.value != exp:
             ctx.evaluations += 1
             ctx.violation(f"safe-value-altered:{case.get('as')}", f"value marked safe {marked!r} rendered as {o.brief()} (expected {exp!r})")
@@ -151,6 +173,9 @@ def judge(ctx: core.Ctx, case: dict[str, Any]) -> None:
         pre = drv.parse_and_render(env(True), case["prelude"], d0)
         ctx.count("twin_preludes_rendered" if pre.ok else "twin_prelude_failed")
         data = d0
+    if case.get("catalog") is not None:
+        data = dict(data, translations=Catalog(case["catalog"]))
+        ctx.count("renders_with_a_message_catalogue")
     REC.update(first_bad=None, n=0)
     o = drv.parse_and_render(env(True), src, data, use_async=case.get("async", False))
     ctx.count("filter_results_scanned", REC["n"])
@@ -333,7 +358,12 @@ def gen_source(rng) -> str:
         elif r < 0.94:
             parts.append("{% include 'p', v: " + rng.choice(VARS) + ", item: t %}{% render 'q', v: cap, s: s %}")
         elif r < 0.97:
-            parts.append("{% translate you: s %}Hello {{ you }}{% endtranslate %}")
+            # message text with stray percent signs and unsupported format characters: whatever the tag does with them
+            # (format, fall back, raise), the message variables must not reach the output raw
+            body = rng.choice(["Hello {{ you }}", "Hello {{ you }}", "100% {{ you }}", "{{ you }} %", "%d {{ you }} %s", "50%% {{ you }}", "%(you)d {{ you }}", "{{ you }}{{ you }} 5 %"])
+            extra_arg = rng.choice(["", "", ", count: 2", ", context: t"])
+            plural = rng.choice(["", "", "{% plural %}{{ you }}s 100%"])
+            parts.append("{% translate you: " + rng.choice(["s", "t", "cap", "h.k"]) + extra_arg + " %}" + body + plural + "{% endtranslate %}")
         else:
             parts.append("{{ s if t else cap }}{{ " + e + " || append: t }}")
         parts.append(rng.choice(["", " ", "x", "\n", " - "]))
@@ -348,11 +378,25 @@ def gen_data(rng, hostile: bool) -> dict[str, Any]:
     }
 
 
+PASS_ROUTES = [
+    "{{ m }}", "{{m}}", "{% echo m %}", "{% assign v = m %}{{ v }}", "{% capture c %}{{ m }}{% endcapture %}{{ c }}",
+    "{% capture c %}{{ m }}{% endcapture %}{% capture d %}{{ c }}{% endcapture %}{{ d }}", "{% capture c %}{{ m }}{% endcapture %}{% assign v = c %}{% echo v %}",
+    "{% for i in (1..1) %}{{ m }}{% endfor %}", "{% if true %}{{ m }}{% endif %}", "{% cycle m, m %}", "{% liquid\n echo m\n%}", "{{ m | default: 'x' }}",
+    "{% ifchanged %}{{ m }}{% endifchanged %}", "{% case 1 %}{% when 1 %}{{ m }}{% endcase %}", "{% capture c %}{% if true %}{{ m }}{% endif %}{% endcapture %}{{ c }}",
+    "{% unless false %}{{ m }}{% endunless %}", "{% with w: m %}{{ w }}{% endwith %}", "{% macro 'f' x %}{{ x }}{% endmacro %}{% call 'f' m %}",
+]
+
+
 def cases(ctx: core.Ctx):
     rng = ctx.rng("cases")
-    for marked in ["<b>x</b>", "a & b", "&amp;", "<i class='c'>\"q\"</i>", ""]:
+    # values marked safe stay byte-for-byte what they are on every route from the data to the output (special characters of every
+    # kind on their own: a value whose only special character is a quote is as safe as one full of tags)
+    for marked in ["<b>x</b>", "a & b", "&amp;", "<i class='c'>\"q\"</i>", "", 'say "hi"', "it's", '"', "'", "<", ">", "&", "a > b", "&#39;", "plain"]:
         for how in ("markup", "html"):
-            yield {"kind": "passthrough", "source": "[{{ m }}]", "marked": marked, "as": how, "data": V.enc({})}
+            for route in PASS_ROUTES:
+                if "default" in route and marked == "":
+                    continue  # the default filter replaces an empty value by design
+                yield {"kind": "passthrough", "source": "[" + route + "]", "marked": marked, "as": how, "data": V.enc({})}
     if ctx.tier == "thorough":
         import itertools
 
@@ -386,4 +430,6 @@ def cases(ctx: core.Ctx):
             c = {"source": gen_source(rng), "data": V.enc(gen_data(rng, hostile=True)), "async": rng.random() < 0.1}
             if i % 23 == 1 and "include" not in c["source"] and "render" not in c["source"]:
                 c["implicit"] = True
+            elif "translate" in c["source"] and rng.random() < 0.6:
+                c["catalog"] = rng.randrange(len(Catalog.VARIANTS))
             yield c
